@@ -38,11 +38,18 @@ def parseLoad : String → Option LoadKind
   | "parseDurationsUnchecked" => some .parseDurationsUnchecked | "parseOrZeroSIND" => some .parseOrZeroSIND
   | "parseOrZeroDirect" => some .parseOrZeroDirect | "zeroMeansDefault" => some .zeroMeansDefault
   | "pointerOptional" => some .pointerOptional | "mergo" => some .mergo | "custom" => some .custom | "none" => some .none
+  | "codecAlways" => some .codecAlways | "codecNonEmpty" => some .codecNonEmpty | "codecListAlways" => some .codecListAlways
+  | "codecListNonEmpty" => some .codecListNonEmpty | "codecListLenient" => some .codecListLenient
+  | "peerListStar" => some .peerListStar | "tlsPath" => some .tlsPath
+  | "emptyZeroParseDurations" => some .emptyZeroParseDurations | "copyNonEmpty" => some .copyNonEmpty
   | _ => none
 
 def parseSave : String → Option SaveKind
   | "direct" => some .direct | "durString" => some .durString | "omitIfDefault" => some .omitIfDefault
   | "omitIfDefaultDur" => some .omitIfDefaultDur | "custom" => some .custom | "none" => some .none
+  | "codecPrint" => some .codecPrint | "codecPrintNonZero" => some .codecPrintNonZero | "codecListPrint" => some .codecListPrint
+  | "codecListPrintNonEmpty" => some .codecListPrintNonEmpty | "peerListStarPrint" => some .peerListStarPrint
+  | "durSeconds" => some .durSeconds
   | _ => none
 
 def parseTy : String → Option Ty
@@ -101,6 +108,9 @@ def modelCheck (i : Input) (o : Output) : Option String :=
     -- the translator's default against the default the running code produces
     if f.dflt != .unknown && f.dflt != .nil && f.dflt != .empty && i.deff != "-" && showConst f.dflt != i.deff then
       some ("default-mismatch model=" ++ showConst f.dflt)
+    else if f.load == .codecAlways && i.vc == "mal" && i.noise == "-" && i.mode != "env" && i.mode != "envalt" then
+      -- a text the parser rejects (or a wrong JSON type) is refused, never replaced by a default
+      (if o.res == "err" then none else some "model=reject:unparsable")
     else if i.noise != "-" || i.vc == "mal" || i.vc == "unset" then none
     else
       let cur := if i.mode == "env" || i.mode == "envalt" then i.cur else i.deff
@@ -216,8 +226,121 @@ def answer (ws : List String) : String :=
 
 end Src
 
+
+/-! ### suite `val`: the real Validate() against the conjunct model -/
+namespace Val
+
+def parseVal (s : String) : Val :=
+  if s == "nil" then .nil
+  else if s == "nonnil" then .nonnil
+  else if s.startsWith "frac:" then
+    (match (s.drop 5).toString.splitOn "/" with
+     | [a, b] => (match a.toInt?, b.toInt? with | some x, some y => .frac x y | _, _ => .unknown)
+     | _ => .unknown)
+  else match parseConst s with
+    | .int i => .int i
+    | .dur i => .int i
+    | .str t => .str t
+    | .bool b => .bool b
+    | _ => .unknown
+
+def parseEnv (s : String) : Env :=
+  (s.splitOn ",").filterMap fun e =>
+    match e.splitOn "=" with
+    | [k, v] => some (k, parseVal v)
+    | _ => none
+
+def tmOf (t : String) : Option Tm :=
+  if t.startsWith "f:" then some (.fld (t.drop 2).toString)
+  else if t.startsWith "l:" then some (.len (t.drop 2).toString)
+  else if t.startsWith "s:" then some (.strOf (t.drop 2).toString)
+  else if t.startsWith "c:" then some (.cst (parseConst (t.drop 2).toString))
+  else none
+
+inductive Item | tm (t : Tm) | cd (c : Cond)
+
+def asCond : Item → Cond
+  | .cd c => c
+  | .tm _ => .opaque
+
+/-- reverse Polish → `Cond` -/
+def rpn (toks : List String) : Cond :=
+  let st := toks.foldl (fun (st : List Item) t =>
+    match tmOf t with
+    | some tm => .tm tm :: st
+    | none =>
+      if t == "opq" then .cd .opaque :: st
+      else if t == "opqc" then .cd .opaqueConst :: st
+      else if t == "not" then (match st with | a :: r => .cd (.not (asCond a)) :: r | _ => [.cd .opaque])
+      else if t == "tru" then (match st with | .tm (.fld n) :: r => .cd (.tru n) :: r | _ => [.cd .opaque])
+      else if t == "and" then (match st with | b :: a :: r => .cd (.and (asCond a) (asCond b)) :: r | _ => [.cd .opaque])
+      else if t == "or" then (match st with | b :: a :: r => .cd (.or (asCond a) (asCond b)) :: r | _ => [.cd .opaque])
+      else match parseOp t, st with
+        | some o, .tm b :: .tm a :: r => .cd (.cmp a o b) :: r
+        | _, _ => [.cd .opaque]) []
+  match st with
+  | [i] => asCond i
+  | _ => .opaque
+
+def parseConj (s : String) : Conj :=
+  match s.splitOn "?" with
+  | [g, c] => { guard := some (rpn (g.splitOn ",")), cond := rpn (c.splitOn ",") }
+  | _ => { guard := none, cond := rpn (s.splitOn ",") }
+
+def showVerdict : Verdict → String
+  | .accept => "accept" | .reject => "reject" | .unknown => "unknown"
+
 def answer (ws : List String) : String :=
+  match splitArrow ws with
+  | none => "bad-case"
+  | some (pre, post) =>
+    match kvOf pre "conj", kvOf pre "env", kvOf post "res", kvOf post "vres" with
+    | some cj, some ev, some res, some vres =>
+      let cs := (cj.splitOn ";").map parseConj
+      let env := parseEnv ev
+      let v := validate env cs
+      let wf := kvOf pre "wf" == some "1"
+      let arm := "val-" ++ (pre.head?.getD "-") ++ "-" ++ showVerdict v ++ "-" ++ res
+      -- the property, on the implementation's outputs: never a crash; accepted ⇒ valid
+      let failed := (if res == "panic" || vres == "panic" then ["no_crash"] else []) ++
+                    (if res == "ok" && vres != "ok" then ["accepted_valid"] else [])
+      if !failed.isEmpty then "propfail " ++ ",".intercalate failed ++ " arm=" ++ arm
+      -- the model: the conjunct evaluation predicts the real Validate on the same Config, on both sides of
+      -- every boundary; a rejected Config is refused by LoadJSON, an accepted well-formed one is accepted
+      else if v == .reject && vres != "err" then "diff arm=" ++ arm ++ " model=validate:reject"
+      else if v == .accept && vres != "ok" then "diff arm=" ++ arm ++ " model=validate:accept"
+      else if v == .reject && res != "err" then "diff arm=" ++ arm ++ " model=load:refuse"
+      else if v == .accept && wf && res != "ok" then "diff arm=" ++ arm ++ " model=load:accept"
+      else "ok arm=" ++ arm ++ (if v == .unknown then " trivial" else "")
+    | _, _, _, _ => "bad-case"
+
+end Val
+
+/-- case kind `mgr`: the policy the model states (`Mgr.unknown_sections_policy`, `Mgr.display_hides_all_hidden`,
+`Mgr.dup_last_wins`): unknown components (objects and nulls) are kept by ToJSON, top-level keys that are no
+section group are dropped by json.Unmarshal, an undefined registered component is written with its defaults,
+the last duplicate key wins, nothing unregistered is displayed -/
+def mgrAnswer (ws : List String) : String :=
+  match splitArrow ws with
+  | none => "bad-case"
+  | some (pre, post) =>
+    let g := fun k => (kvOf post k).getD "?"
+    let o : MgrObs := { res := g "res", fix := g "fix" == "1", leak := g "leak" == "1", masked := g "masked" == "1" }
+    let arm := "mgr-" ++ (pre.head?.getD "-") ++ "-" ++ o.res
+    let failed := (mgrClauses o).filter (fun c => !c.2)
+    if !failed.isEmpty then "propfail " ++ ",".intercalate (failed.map (·.1)) ++ " arm=" ++ arm
+    else if o.res != "ok" then "diff arm=" ++ arm ++ " model=accept"
+    else
+      let exp := [("unkcomp", "kept"), ("unknull", "kept"), ("unktop", "dropped"), ("undef", "written"), ("disp", "absent")] ++
+        (if pre.head? == some "dup" then [("dup", "last")] else [("dup", "other")])
+      match exp.find? (fun (k, v) => g k != v) with
+      | some (k, v) => "diff arm=" ++ arm ++ " model=" ++ k ++ ":" ++ v
+      | none => "ok arm=" ++ arm
+
+def answer (ws : List String) : String :=
+  if ws.head? == some "mgr" then mgrAnswer (ws.drop 1) else
   if ws.head? == some "src" then Src.answer (ws.drop 1) else
+  if ws.head? == some "val" then Val.answer (ws.drop 1) else
   match parseCase ws with
   | none => "bad-case"
   | some (i, o) =>
